@@ -2,7 +2,7 @@ use vstd::prelude::*;
 use crate::common::function::FunctionCode;
 use crate::common::traits::{Parse, Serialize};
 use crate::error::RequestError;
-use crate::error::{AduParseError, InvalidRequest};
+use crate::error::*;
 use crate::types::{AddressRange, Indexed};
 use crate::shims::scursor::{ReadCursor, WriteCursor};
 
